@@ -1,9 +1,11 @@
 #!/bin/bash
 # convenience: run every claimed check at a tier (default quick); prints one summary line per property
 TIER="${1:-quick}"
+FROM="${2:-C00}"   # optional: start at this property id
 cd "$(dirname "$0")"
 rc=0
 for id in $(python3 -c "import json;print(' '.join(c['property_id'] for c in json.load(open('MANIFEST.json'))['checks']))"); do
+  [[ "$id" < "$FROM" ]] && continue
   out=$(./verif.sh "$id" "$TIER" 2>&1); r=$?
   echo "$out" | grep -E "VIOLATION|HELD|VIOLATED|INCONCLUSIVE" | tail -2
   [ $r -ne 0 ] && rc=$r
